@@ -47,6 +47,16 @@ CHECKS.update({
         "note": M1NOTE + " The state is observed through a sensing action observing every ground fluent.",
         "technique": "trace validation of recorded environment runs against the TLA+ sequential semantics (UPSeqSem) by TLC",
     },
+    "C10": {
+        "text": "UPKinds!FeaturesOf is an independent syntactic feature extractor over the abstract model, transcribed clause by clause from the documented meaning of each feature (docs/problem_representation.rst), not from _KindFactory. TLC enumerates 778 (problem class, feature, syntactic position, variant) cases; each becomes a minimal problem built through the public API; plus random classical/numeric/temporal problems and the bundled example problems. TLC judges that the recorded Problem.kind contains every feature FeaturesOf demands.",
+        "note": TRUST + " One-directional (the computed kind must contain every used feature). Covers classical, numeric, temporal, HTN, multi-agent, scheduling and contingent per-position cases; TAMP/SAMP and up_test_cases are not covered.",
+        "technique": "TLA+ reference feature extractor evaluated by TLC over TLC-enumerated per-position problems and generated problems; recorded kinds judged against it",
+    },
+    "C36": {
+        "text": "T1: UPStateSM.tla models UPState as the Python object is shaped (father pointer, own values, ancestor counter, MAX_ANCESTORS condensation exactly where the code condenses: hash, repr, eq, failed get_value) and TLC checks that it refines a finite map (GetOK, EqOK, HashOK, ChainBounded, Immutable) for all make_child trees within bounds and limits {1, 2, None}. T2/T3: every TLC-enumerated call history of length 4 (5 thorough) and seeded histories of up to 60 calls are replayed on real UPState subclasses with ancestor limits 1, 2, 3, 20, None; after each call get_value of every fluent, pairwise == and hash equality are recorded (on a replica, because queries mutate) and the trace spec judges them against the finite-map layer.",
+        "note": TRUST + " Whole trees are put under a limit by setting the class attribute UPState.MAX_ANCESTORS during a replay. An __eq__ that trusted hash equality alone could only be exposed by a real 64-bit collision (refuted at design level only).",
+        "technique": "TLA+ refinement check (TLC) + trace validation of TLC-enumerated and random histories replayed on the real class",
+    },
     "C14": {
         "text": "T1: DagWalker.tla models memo/stack handling of the shared walkers as written; TLC checks HistoryIndependent and CleanBetweenCalls for all call histories within bounds (and that the unrepaired model has a counterexample, which is replayed on the real walkers). T2/T3: thousands of TLC-enumerated call histories over substituter, simplifier, type checker, free-vars/names extractors and quantifier remover, with failures injected mid-walk, are replayed on one shared Environment and call by call on fresh Environments; the trace spec judges result equality and walker cleanliness after every call.",
         "note": TRUST + " Histories of <= 3-4 calls exhaustive over a 28-node expression menu, longer ones sampled.",
